@@ -399,3 +399,35 @@ def c02_tuple_leaf_iloc(rec, params):
     '''level_add on an index whose labels are tuples: iteration / values / lookup keep the tuple as one leaf label, iloc[i] flattens it'''
     cs = rec.get('case') or {}
     return rec.get('clause') == 'iloc_elements' and cs.get('route') == 'level_add' and bool(cs.get('src')) and all(l[0] == 't' for l in cs['src'])
+
+
+def _mentions_outside(key, n):
+    '''does a label key name an integer label outside 0..n-1'''
+    if not key:
+        return False
+    def out(l):
+        return l and l[0] == 'i' and not (0 <= l[1] < n)
+    k = key[0]
+    if k == 'loc':
+        return out(key[1])
+    if k == 'loclist':
+        return any(out(l) for l in key[1])
+    if k == 'locslice':
+        return out(key[1]) or out(key[2])
+    return False
+
+
+@classifier
+def c04_auto_index_passthrough(rec, params):
+    '''an auto-integer (map-less) index hands integer label keys to positional selection unchecked: an absent negative label,
+    or a slice bound past the end, selects by position instead of raising the lookup error'''
+    cs = (rec.get('case') or {}).get('cs') or {}
+    exp = rec.get('expected') or {}
+    if not isinstance(exp, dict) or exp.get('k') != 'err' or exp.get('cat') != 'lookup':
+        return False
+    c = cs.get('f') or cs.get('s') or {}
+    if c.get('index_auto') and _mentions_outside(cs.get('rk'), len(c['index'])):
+        return True
+    if c.get('columns_auto') and _mentions_outside(cs.get('ck'), len(c['columns'])):
+        return True
+    return False
